@@ -15,6 +15,10 @@ Engine libmc (harness/libmc16.cpp, asan variant): bounded exhaustive exploration
     pivots exactly at the columns that exact integer elimination finds
     dependent on their predecessors; defect() = exact nullity; inverse entries
     inside the envelope = dense g-inverse;
+  * Envelope::operator= between all ordered pairs of envelope profiles (all
+    n! row-width profiles of every dimension 0..5, thorough 0..6) x 3 states
+    of the target x 3 states of the source, and self assignment: equality
+    with the source element by element, no shared storage, independence;
   * all block layouts (compositions of n<=5) x all band widths x 2 value
     families x choice of non positive definite blocks: BlockDiagonal::cholDec
     return value and factor, replicate, UpperBlockDiagonal, Envelope(BlockDiagonal);
@@ -39,7 +43,12 @@ RULE = ("every unit enumerates its finite family completely: all 0/1 patterns of
         "replicate, column graph, connectivity, ordering, envelope kernels for 3 value families x 4 coefficient scales {1, 1e3, 1e-2, 1e-5} "
         "with the pivot tolerance of cholDec scaled by the caller (default argument at scale 1, sqrt(eps)*scale^2 otherwise): set, copies, "
         "factor, zero pivots, defect, all partial solve ranges, solve and inverse (also in place) judged at unit scale against the dense "
-        "long double LDL' / g-inverse of the same permuted integer normal matrix), all block layouts x band widths x "
+        "long double LDL' / g-inverse of the same permuted integer normal matrix), "
+        "Envelope::operator= on every ordered pair (target profile, source profile) of the complete profile family (every row a of a dimension-n "
+        "envelope has width 0..a-1: all n! profiles for n = 0..%d; pairs of equal profile, equal total size with different profiles, different "
+        "size, different dimension, to / from the empty object) x target state x source state {position coded, factored, factored with defect} "
+        "+ self assignment, judged by dim / row widths / diagonal / envelope / defect equal to the source, no shared storage, target unchanged when "
+        "the source is overwritten and destroyed, all block layouts x band widths x "
         "value families x non-positive-definite block choices (positive definite layouts: Envelope cholDec / solve / inverse at the 4 scales as well), all (layout, m x 2 pattern) pairs for the homogenization; a state = one "
         "enumerated pattern or layout, a transition = one library operation executed and compared with the dense reference; "
         "non-trivial = every configuration")
@@ -74,7 +83,8 @@ def main():
         ck.violation(sig, detail, replay=case)
     ck.counters["distinct_nontrivial"] = ck.counters.get("states", 0)
     th = ck.tier == "thorough"
-    ck.finish(RULE, assumptions=[
+    ck.finish(RULE % (6 if th else 5), assumptions=[
+        "of the sparse classes only Envelope has a usable assignment operator (SparseMatrix, BlockDiagonal, SparseVector, IntegerList declare theirs private and never define it); chains of assignments longer than one are not enumerated",
         "patterns up to %s; values 1, +-1 by parity, 1..3 by position, times the scale (exact integer normal matrices at unit scale: pivots >= 1e-5 * scale^2 or 0 up to rounding, far from the pivot tolerance 1.5e-8 * scale^2 on both sides; at scale 1e-5 every regular pivot lies between the given tolerance and the default one)" % ("5x4" if th else "4x4"),
         "cholDec tolerances other than the default and sqrt(eps)*scale^2, and pivots within a factor 1e3 of the tolerance, are outside the family",
         "block layouts: dimension <= 5, diagonally dominant value families; non positive definite blocks by a zero first pivot, a negative last pivot, a dominant off-diagonal element",
